@@ -23,6 +23,13 @@ def check(res):
     for l in lines:
         w = l.split()
         name = w[1]
+        if name == "client_strings":
+            dd = dict(x.split("=", 1) for x in w[2:] if "=" in x)
+            if dd.get("look_alikes") != "0":
+                viol("route:client-string", "given a String with a reserved spelling that the client made itself (not from a string pool), %s of %s routes "
+                     "(get_identifier -> name of the constant, get_as_type, get_label) yield a look-alike instead of the constant; first: %s" %
+                     (dd.get("look_alikes"), dd.get("routes"), dd.get("first")), l)
+            continue
         if name == "exception":
             viol("before-main:exception", "a Lexicon used by the initializer of a namespace-scope object (before main) throws: " + l, l)
             continue
